@@ -27,6 +27,7 @@ EXPLANATION = (
     "regex accepts exactly the documented reference spellings (E2). Which of several equally named "
     "candidates wins is documented as undefined and is not decided."
     " R6 (shared with C09.R8): item anchors exist on the owner's page. R7: every collection find_child searches is a sequence at every assignment, or is wrapped before it is searched. R8: every class of entity that find_child can hand out has a URL wherever it can be declared (own page, anchor on the owner's page, or a get_url override). R2 is decided on the inlined event trace of convert_link; R4 also requires the converter's state (current_context, current_path) to be reset on every call."
+    " Added after waves 6/7 - an unresolved reference (an <a> without href) is harmless in every filter it passes; a dummy procedure is re-parented to its host."
 )
 ASSUMPTIONS = ["the rst bullet lists under 'The available options are:' and 'but has different options:' enumerate the documented kinds"]
 
